@@ -160,6 +160,9 @@ pub enum Op {
     /// the clock jumps forward in the middle of the wrapped write: its reading number `after_reads` still sees the old
     /// time, every later reading (of the caller or the worker) the new one
     JumpDuring { after_reads: u8, by_ms: u32, op: Box<Op> },
+    /// put `count` keys from a separate range (100 + first ..), each with the same small weight and the same TTL if any:
+    /// fills the cache with many light entries (many victims for one put, many expiries in one sweep)
+    Fill { first: u8, count: u8, w: u8, ttl: Option<TtlSel> },
     /// inside a burst only: let the parked command worker execute exactly one queued command (the oldest)
     StepWorker,
     /// park the command worker, issue the burst without awaiting, release, await everything
@@ -205,6 +208,8 @@ pub struct GenParams {
     pub mix: [u32; 10],
     pub max_key: u8,
     pub noise_readers: Vec<u8>,
+    /// relative frequency of Fill ops (0 = never)
+    pub fill: u32,
 }
 
 impl GenParams {
@@ -225,6 +230,7 @@ impl GenParams {
             mix: [30, 20, 12, 20, 3, 6, 12, 2, 8, 3],
             max_key: 8,
             noise_readers: vec![0],
+            fill: 0,
         }
     }
 }
@@ -344,6 +350,10 @@ pub fn op_strategy(params: &GenParams) -> BoxedStrategy<Op> {
     choices.push((read.max(3) / 3, (any::<bool>(), prop::collection::vec(key.clone(), 2..=4), prop::collection::vec(writes.clone(), 1..=3)).prop_map(|(map, keys, between)| Op::IterSteps { map, keys, between }).boxed()));
     if params.ttl {
         choices.push(((advance / 3).max(1), (0u8..=3, prop_oneof![Just(1u32), Just(500), Just(1001), Just(2500)], writes.clone()).prop_map(|(after_reads, by_ms, op)| Op::JumpDuring { after_reads, by_ms, op: Box::new(op) }).boxed()));
+    }
+    if params.fill > 0 {
+        let ttl: BoxedStrategy<Option<TtlSel>> = if params.ttl { prop_oneof![1 => Just(None), 2 => (0u32..=6).prop_map(|s| Some(TtlSel::Secs(s)))].boxed() } else { Just(None).boxed() };
+        choices.push((params.fill, (0u8..100, 10u8..=70, 1u8..=5, ttl).prop_map(|(first, count, w, ttl)| Op::Fill { first, count, w, ttl }).boxed()));
     }
     if params.stall && stall > 0 {
         let burst_op = prop_oneof![10 => writes, 2 => reads, 2 => Just(Op::StepWorker)];
